@@ -694,9 +694,31 @@ func (c *Ctx) own9() {
 			if !ok {
 				continue
 			}
-			fresh := func(v ssa.Value) bool {
-				ms, ok := v.(*ssa.MakeSlice)
-				return ok && ms.Parent() == sv
+			var fresh func(v ssa.Value) bool
+			fresh = func(v ssa.Value) bool {
+				if ms, ok := v.(*ssa.MakeSlice); ok {
+					return ms.Parent() == sv || c.isNewHelper(ms.Parent())
+				}
+				// a helper extracted from Save that returns its own allocation
+				if call, ok := v.(*ssa.Call); ok {
+					f := call.Call.StaticCallee()
+					if f == nil || !c.isNewHelper(f) {
+						return false
+					}
+					n := 0
+					for _, b := range f.Blocks {
+						for _, ins := range b.Instrs {
+							if r, ok := ins.(*ssa.Return); ok && len(r.Results) > 0 {
+								n++
+								if ms, ok := r.Results[0].(*ssa.MakeSlice); !ok || ms.Parent() != f {
+									return false
+								}
+							}
+						}
+					}
+					return n > 0
+				}
+				return false
 			}
 			okV := fresh(mu.Value)
 			if phi, isPhi := mu.Value.(*ssa.Phi); isPhi {
